@@ -1882,26 +1882,46 @@ Example finished_after_snapshot :
      = [(Some 7, Some (VN 5))].
 Proof. vm_compute. repeat split. Qed.
 
-(* S8 (known finding): NewHost makes the client call RenetClient::disconnect() (sticky) and swap
-   the transports inside one flush: resource_removed never sees the transport absent, the new
-   transport never connects, ClientState stays Connected while renet reports Disconnected. *)
+(* "ClientState::Connected implies the renet client is connected" is false: the published state
+   only follows the transport RESOURCE (resource_added / resource_removed) and, while Connecting,
+   renet's status; once Connected nothing looks at the status again. *)
 Definition connected_implies_renet_connected_statement : Prop :=
   forall pr o, p_panic pr = None -> next_client_legal pr ->
     s_client (frame pr o) = CliConnected -> n_status (frame pr o) = RConnected.
 
-Example S8_connected_while_renet_disconnected :
+(* the witness: the RenetClient of a Connected client is kicked / times out (the frame oracle reports
+   Disconnected) while the transport resource stays: ClientState remains Connected, frame after
+   frame, with nothing pending *)
+Example connected_while_renet_disconnected :
+  let pr1 := frame demo_client (o_status RDisconnected) in
+  let pr3 := prun pr1 [inr o_idle; inr o_idle] in
+  s_client demo_client = CliConnected /\ n_status demo_client = RConnected
+  /\ p_panic demo_client = None /\ s_next_client demo_client = None
+  /\ s_client pr1 = CliConnected /\ n_status pr1 = RDisconnected /\ (fst <$> n_cli_transport pr1) = Some 0
+  /\ s_client pr3 = CliConnected /\ n_status pr3 = RDisconnected /\ (fst <$> n_cli_transport pr3) = Some 0
+  /\ s_next_client pr3 = None.
+Proof. vm_compute. repeat split. Qed.
+
+(* S8 (known finding, repaired with S9): NewHost makes the client call RenetClient::disconnect() and
+   swap the transports inside one flush, so resource_removed never sees the transport absent and
+   ClientState stays Connected across the switch.  Before the repair the sticky disconnect stranded
+   the new transport (Connected for ever while renet reported Disconnected); now a new RenetClient
+   is inserted with the transport: it starts Connecting and connects as usual.  During the switch
+   the state is Connected while renet is only Connecting: a second, transient, counterexample. *)
+Example S8_newhost_reconnects :
   let pr := with_inbox demo_client 0 [MNewHost 2] in
   let pr1 := frame pr (o_poll 1) in
-  let pr4 := prun pr1 [inr o_idle; inr (o_status RDisconnected); inr (o_status RDisconnected)] in
+  let pr3 := prun pr1 [inr o_idle; inr (o_status RConnected)] in
   s_client pr = CliConnected /\ n_status pr = RConnected
-  /\ s_client pr1 = CliConnected /\ n_status pr1 = RDisconnected /\ (fst <$> n_cli_transport pr1) = Some 2
-  /\ s_client pr4 = CliConnected /\ n_status pr4 = RDisconnected /\ s_next_client pr4 = None.
+  /\ s_client pr1 = CliConnected /\ n_status pr1 = RConnecting /\ (fst <$> n_cli_transport pr1) = Some 2
+  /\ n_sticky_disconnect pr1 = false
+  /\ s_client pr3 = CliConnected /\ n_status pr3 = RConnected /\ s_next_client pr3 = None.
 Proof. vm_compute. repeat split. Qed.
 
 Theorem connected_implies_renet_connected_refuted : ~ connected_implies_renet_connected_statement.
 Proof.
-  intros H. specialize (H (with_inbox demo_client 0 [MNewHost 2]) (o_poll 1)).
-  assert (n_status (frame (with_inbox demo_client 0 [MNewHost 2]) (o_poll 1)) = RConnected) as E.
+  intros H. specialize (H demo_client (o_status RDisconnected)).
+  assert (n_status (frame demo_client (o_status RDisconnected)) = RConnected) as E.
   { apply H; vm_compute; auto. }
   vm_compute in E. discriminate E.
 Qed.
